@@ -92,17 +92,21 @@ pub fn check_case2(c: &RCase, q: &QRCode, other: Option<&QRCode>) -> (Vec<(Strin
     let (fg, bg, _) = COLOUR_PAIRS[c.colours];
     let mk = || {
         let mut b = ImageBuilder::default();
-        // colours go through every conversion route in turn: [u8; 4] arrays, Vec<u8>, &[u8]
-        b.shape(SHAPES[c.shape]).margin(c.margin);
-        match (c.v + c.margin + c.shape) % 3 {
+        // colours go through every route in turn: module_color with [u8; 4] arrays, Vec<u8>, &[u8], and the layer's own
+        // colour given with shape_color (no module_color call at all)
+        b.margin(c.margin);
+        match (c.v + c.margin + c.shape) % 4 {
             0 => {
-                b.module_color(fg).background_color(bg);
+                b.shape(SHAPES[c.shape]).module_color(fg).background_color(bg);
             }
             1 => {
-                b.module_color(fg.to_vec()).background_color(bg.to_vec());
+                b.shape(SHAPES[c.shape]).module_color(fg.to_vec()).background_color(bg.to_vec());
+            }
+            2 => {
+                b.shape(SHAPES[c.shape]).module_color(&fg[..]).background_color(&bg[..]);
             }
             _ => {
-                b.module_color(&fg[..]).background_color(&bg[..]);
+                b.shape_color(SHAPES[c.shape], fg).background_color(bg);
             }
         }
         match c.fit {
